@@ -30,12 +30,14 @@ class RecKernel:
 
 
 class RecProgram:
+    permissive = False          # True: accept duplicate kernel names (to see what the exporter hands over when nothing refuses it)
+
     def __init__(self, name):
         self.name = name
         self.kernels = []
 
     def _add(self, k):
-        if any(x.name == k.name for x in self.kernels):
+        if not RecProgram.permissive and any(x.name == k.name for x in self.kernels):
             raise DuplicateKernel('duplicate kernel name: %s' % k.name)
         self.kernels.append(k)
 
@@ -65,7 +67,18 @@ def export(handle):
         p2 = to_openql(handle)
         return {'status': 'ok', 'flat': p.flat(), 'names': p.names(), 'same_twice': p.flat() == p2.flat() and p.names() == p2.names()}
     except DuplicateKernel as e:
-        return {'status': 'duplicate-kernel', 'flat': [], 'names': [], 'same_twice': True, 'msg': str(e)[:120]}
+        # the export is refused (known finding S8b). What the exporter hands over is still observable: the same export into a
+        # program double that accepts duplicate names (the instruction stream is judged against the image; 'flat' stays empty
+        # if that second export fails for any reason)
+        flat = []
+        try:
+            RecProgram.permissive = True
+            flat = to_openql(handle).flat()
+        except Exception:                                            # noqa: BLE001
+            flat = []
+        finally:
+            RecProgram.permissive = False
+        return {'status': 'duplicate-kernel', 'flat': flat, 'names': [], 'same_twice': True, 'msg': str(e)[:120]}
     except Exception as e:
         return {'status': 'error:' + e.__class__.__name__ + ':' + str(e)[:120], 'flat': [], 'names': [], 'same_twice': True}
     finally:
